@@ -33,7 +33,7 @@ run)
   ;;
 report)
   shift
-  if [ $# -eq 0 ]; then set -- $(ls "$COV"/*.profdata | xargs -n1 basename | sed 's/.profdata//' | grep -v '^ALL$'); name=ALL; else name=$(echo "$@" | tr ' ' '+'); fi
+  if [ $# -eq 0 ]; then set -- $(ls "$COV"/*.profdata | xargs -n1 basename | sed 's/.profdata//' | grep -v '^_'); name=ALL; else name=$(echo "$@" | tr ' ' '+'); fi
   profs=""; objs=""
   for p in "$@"; do profs="$profs $COV/$p.profdata"; b=$(echo "$p" | tr 'A-Z' 'a-z'); objs="$objs -object $HD/target/debug/$b"; done
   "$BIN/llvm-profdata" merge -sparse $profs -o "$COV/_$name.profdata"
